@@ -61,11 +61,11 @@ def make_component(rng, ctor, cid, n1, n2, dec, freqs=None, lossy=0.35, allow_ne
         if rng.random() < lossy:
             a['Y'] = [1.0 / v(), rng.choice([1, -1, 0]) / v()]
     elif ctor == 'periodic_voltage_source':
-        a.update(wavetype=rng.choice(WAVES), V=sgn * G.value(rng, -1, 1), w=rng.choice(freqs) if freqs else G.value(rng, 0, 3), phi=phase(rng))
+        a.update(wavetype=rng.choice(WAVES), V=sgn * G.value(rng, -1, 1), w=rng.choice([f for f in freqs if f > 0]) if freqs else G.value(rng, 0, 3), phi=phase(rng))
         if rng.random() < lossy:
             a['R'] = v()
     elif ctor == 'periodic_current_source':
-        a.update(wavetype=rng.choice(WAVES), I=sgn * G.value(rng, -3, -1), w=rng.choice(freqs) if freqs else G.value(rng, 0, 3), phi=phase(rng))
+        a.update(wavetype=rng.choice(WAVES), I=sgn * G.value(rng, -3, -1), w=rng.choice([f for f in freqs if f > 0]) if freqs else G.value(rng, 0, 3), phi=phase(rng))
         if rng.random() < lossy:
             a['G'] = 1.0 / v()
     else:
